@@ -34,7 +34,29 @@ class Src:
     filename = ""
 
 
+class _LastLine:
+    def __init__(self, n):
+        self.n = n
+
+    def __len__(self):
+        return self.n
+
+
+class _TokenText:
+    """text of an abstract token that spans lines: only the length of its last line is known (= the end column).
+    Contract of the environment: a token's text is consistent with its true end position."""
+
+    def __init__(self, end_col):
+        self.end_col = end_col
+
+    def rsplit(self, sep, maxsplit):
+        assert sep == "\n" and maxsplit == 1
+        return ["", _LastLine(self.end_col)]
+
+
 def tok(start, end, s="x"):
+    if end[0] != start[0]:
+        s = _TokenText(end[1])
     return Token(1, s, start, end, "", 0, 0, 0)
 
 
